@@ -1132,7 +1132,7 @@ func valuesOfType(r *rng, t string) []interface{} {
 	case "string":
 		// (control characters and runes Go's %q and JSON quote differently; non-BMP; U+2028; DEL)
 		for _, x := range []string{"", "x", "é", "12", "true", "<&>", "\"\\", "a\nb", " ", "2021-09-24T10:11:12Z",
-			"\\u003c", "x\\u0026\\", strings.Repeat("long text ", 300), "\a", "\v\f", "\x00\x1f", "\x7f", "\u2028\u2029", "\U0001F600", "\U000E0001", "\u00ad\ufeff", "tab\there"} {
+			"\\u003c", "x\\u0026\\", strings.Repeat("long text ", 300), `{"a":1}`, `[1,2]`, `{}`, `[]`, `"q"`, `null`, `-1.5e3`, "\a", "\v\f", "\x00\x1f", "\x7f", "\u2028\u2029", "\U0001F600", "\U000E0001", "\u00ad\ufeff", "tab\there"} {
 			add(x)
 		}
 	case "[]byte":
@@ -1492,6 +1492,9 @@ func (c *templCtx) fixedPointSweep() {
 							if tree, err := refTree(bytes.TrimSuffix(L, []byte("\n"))); err == nil && tree.kind == 'o' {
 								if m := tree.member("c"); m != nil {
 									gotSec, gotOff, ok2 := readRFC3339(m.s)
+									if m.kind == 's' && ok2 && strings.Contains(m.s, ".") {
+										c.violate("C14", fmt.Sprintf("the date-time %s is written back as %s: sub-second digits are dropped, not kept", v, m.raw), ctx)
+									}
 									if m.kind != 's' || !ok2 || gotSec != wantSec || gotOff != wantOff {
 										c.violate("C14", fmt.Sprintf("the date-time %s is written back as %s: instant %d offset %d expected, got %d / %d", v, m.raw, wantSec, wantOff, gotSec, gotOff), ctx)
 									}
